@@ -816,6 +816,11 @@ def unchecked_getter_oracle(facts):
                 wild = [a for a in e["from_arms"] if a["pattern"] == "wild"]
                 if wild and not str(wild[0].get("target", "")).startswith("err"):
                     continue
+                if any(a["pattern"] is None for a in e["from_arms"]):
+                    # an arm that is neither one integer literal nor the wildcard (a range, a guard, ...): the emitter is
+                    # known to write one literal arm per variant plus the fallback; anything else is not shown total here
+                    bad.append((fs["name"], g["name"], en, "conversion arm with a pattern that is not one integer literal"))
+                    break
                 listed = {int(a["pattern"]) for a in e["from_arms"] if a["pattern"] != "wild" and not a.get("cfg")}
                 if w > 16:
                     bad.append((fs["name"], g["name"], en, f"fallible conversion on a {w}-bit field"))
